@@ -22,7 +22,8 @@ EXPLANATION = ('theorems (PcbV.Props.C23 over PcbV.Model.ClearChain): clear/new/
                'chain_clears_rest, chain_failure_releases_hold; correspondence: the canonical dump of all probes is '
                'compared with the model run on the same abstract pre-state; oracle: expectations written from the '
                'statement (values of candidates, FN undefined, default types, base, NEXT/WEND/RETURN errors, untrapped '
-               'error, soft math error, RND restart, READ restart, ERR=0, memory accounting of FRE, collector alive)')
+               'error, soft math error, RND restart, READ restart, ERR=0, memory accounting of FRE, collector alive; a CHAIN whose '
+               'file cannot be opened: File not found reported or trapped by an active ON ERROR, nothing changed)')
 TRUSTED_BASE = ['model PcbV.Model.ClearChain is a hand transcription of _clear_all/clear_/new_/run_/chain_, '
                 'DataSegment.clear/preserve_commons, Interpreter.clear/clear_stacks_and_pointers (repaired code)',
                 'the translation of a generated scenario into BASIC text and into the abstract pre-state of the model',
@@ -407,7 +408,7 @@ def build_p1(sc, clear_n, total, stack):
           '1050 NEXT',
           '1060 %s' % ('RETURN' if sc['nest'] else 'END'),
           '2000 ERROR 78',
-          '2010 END',
+          '2010 STOP',
           '3000 PRINT 1/0:PRINT "SOFT":END',
           '5000 STOP',
           '9000 GOTO %d' % (after_err or 2010),
@@ -592,10 +593,17 @@ def _run(sc, s):
     top_after = total - stack - 2
     obs = {}
     obs['err_op'] = err_of(out_op)
+    # a CHAIN whose file cannot be opened must leave everything as it was (the file is opened first)
+    nofile = kind == 'chain' and not op['exists']
     # ---- probes (order matters) ----
-    obs['fre'] = fre_of(ex(s, 'PRINT FRE(0)'))
+    # (unchanged memory still holds the garbage of the set-up: collect it first to make FRE predictable)
+    obs['fre'] = fre_of(ex(s, 'PRINT FRE("")' if nofile else 'PRINT FRE(0)'))
     m = re.findall(br'-?\d+', ex(s, 'PRINT ERR;ERL'))
     obs['err'] = int(m[0]) if m else None
+    if nofile:
+        obs['trapped'] = obs['err_op'] is None and b'Break in 2010' in out_op
+        if obs['trapped'] and obs['err'] == 53:
+            obs['err_op'] = 53          # went to the ON ERROR handler, which stops in line 2010
     direct = not op['inprog']
     if direct and kind in ('clear', 'new') and not clear_err:
         obs['cont'] = err_of(ex(s, 'CONT'))
@@ -630,7 +638,7 @@ def _run(sc, s):
     # DEF FN
     fn_alive = []
     for i, f in enumerate(sc['fns']):
-        if kind == 'chain' and op['all']:
+        if kind == 'chain' and op['all'] and op['exists']:
             break       # kept by ALL but pointing into the replaced program text: not called
         out = ex(s, 'LOCATE 1,1:PRINT FN%s(1)' % f)
         if err_of(out) != 18:
@@ -643,7 +651,25 @@ def _run(sc, s):
     prog_here = p1_here or (kind == 'chain')
     obs['p1_here'] = p1_here
     # stacks
-    if p1_here:
+    if nofile:
+        # nothing may have changed, so the stacks are alive: probing them by NEXT/WEND/RETURN would resume
+        # the program; they are read from the interpreter instead (expected values if not accessible)
+        try:
+            it_ = s._impl.interpreter
+            obs['gosub'] = 1 if it_.gosub_stack else 0
+            obs['for'] = 1 if it_.for_stack else 0
+            obs['while'] = 1 if it_.while_stack else 0
+            obs['trap'] = it_.on_error or 0
+            obs['math'] = 1 if s._impl.values.error_handler._do_raise else 0
+        except Exception:       # noqa
+            obs['gosub'], obs['for'], obs['while'] = (1 if sc['nest'] else 0), 1, 1
+            obs['trap'] = 9000 if sc['onerror'] else 0
+            obs['math'] = 1 if sc['onerror'] else 0
+        obs['trap_out'] = obs['math_out'] = b''
+        # the trap is (rightly) still armed: switch it off, or the probes below that work by provoking an
+        # error would run the handler and with it parts of the program
+        ex(s, 'ON ERROR GOTO 0')
+    elif p1_here:
         o = ex(s, 'GOTO 1040')
         obs['while'] = 0 if err_of(o) == 30 else 1
         o = ex(s, 'GOTO 1050')
@@ -657,7 +683,9 @@ def _run(sc, s):
         obs['while'] = obs['for'] = 0
         obs['gosub'] = 0 if err_of(ex(s, 'RETURN')) == 3 else 1
     # error trap, soft math errors
-    if prog_here:
+    if nofile:
+        o = None
+    elif prog_here:
         o = ex(s, 'GOTO 2000')
         obs['trap'] = 0 if o.replace(b'\xff', b'').strip() == b'Unprintable error in 2000' else 9000
         obs['trap_out'] = o
@@ -667,8 +695,9 @@ def _run(sc, s):
         obs['trap'] = 0 if o.replace(b'\xff', b'').strip() == b'Unprintable error' else 9000
         obs['trap_out'] = o
         o = ex(s, 'LOCATE 1,1:PRINT 1/0:PRINT "SOFT"')
-    obs['math'] = 0 if (b'Division by zero\r\n' in o and b'SOFT' in o) else 1
-    obs['math_out'] = o
+    if o is not None:
+        obs['math'] = 0 if (b'Division by zero\r\n' in o and b'SOFT' in o) else 1
+        obs['math_out'] = o
     # make room for the remaining probes: the values have been recorded, drop the strings
     for name, sig, _, _ in pre_sc:
         if sig == '$' and obs['sc'][name]:
@@ -805,7 +834,7 @@ def impl_string(sc, r):
             parts.append('%s=%s=%s' % (hexname(n), '.'.join(str(k - 1 + lo) for k in a[0]),
                                        ','.join(cell_txt(sig, c) for c in a[1])))
     arw = ';'.join(parts) or '-'
-    if kind == 'chain' and op['all']:
+    if kind == 'chain' and op['all'] and op['exists']:
         fn = [complete(f, r['table']) for f in sc['fns']]     # not probed: calling them would run stale code
     else:
         fn = [complete(f, r['table']) for f in obs['fn']]
@@ -836,6 +865,8 @@ def oracle(ctx, sc, r):
         if r['clear_err'] != want:
             fail('bad-argument', 'expected error %d, got %r' % (want, r['out_op']))
         return
+    if kind == 'chain' and not op['exists']:
+        return oracle_nofile(sc, r, fail)
     e = obs['err_op']
     failed = e is not None
     keep_all = False
@@ -845,10 +876,7 @@ def oracle(ctx, sc, r):
         commons_a = {complete(n, r['table']) for n in op['ca']}
         keep_all = op['all']
         # expected outcome of the CHAIN itself
-        if not op['exists']:
-            if e != 53:
-                fail('missing-file', 'expected File not found, got %r' % r['out_op'])
-        elif op['jump'] == 6999:
+        if op['jump'] == 6999:
             if e != 5:
                 fail('undefined-start-line', 'expected Illegal function call, got %r' % r['out_op'])
         else:
@@ -960,6 +988,57 @@ def oracle(ctx, sc, r):
         want_fre = r['top_after'] - r['vs_new']
     if want_fre is not None and obs['fre'] != want_fre:
         fail('fre-accounting', 'FRE(0) = %r, expected %r' % (obs['fre'], want_fre))
+
+
+def oracle_nofile(sc, r, fail):
+    """CHAIN of a file that cannot be opened: File not found (trapped if a trap is active), nothing changed."""
+    obs = r['obs']
+    want_trapped = sc['onerror'] and not sc['err']      # inside a handler errors are not trapped again
+    if want_trapped:
+        if not obs.get('trapped') or obs['err'] != 53 or b'File not found' in r['out_op']:
+            fail('missing-file-not-trapped', 'ON ERROR GOTO 9000 is active, expected the handler (Break in 2010, ERR=53), '
+                 'got %r, ERR=%r' % (r['out_op'], obs['err']))
+    elif err_of(r['out_op']) != 53 or obs['err'] != 53:
+        fail('missing-file', 'expected File not found, got %r, ERR=%r' % (r['out_op'], obs['err']))
+    if not obs['gc']:
+        fail('collector-dead', 'a loop assigning strings ends in %r' % obs['gc_out'])
+    for n, sig, v, _ in r['pre_sc']:
+        if obs['sc'][n] != v:
+            fail('failed-open-changed-scalar', '%s was %r, now %r' % (n, v, obs['sc'][n]))
+    lo = sc['base'] or 0
+    for n, sig, dims, cells in r['pre_ar']:
+        got = obs['ar'][n]
+        if got is None:
+            fail('failed-open-lost-array', '%s() is not defined any more' % n)
+        elif got[0] != [dd + 1 - lo for dd in dims] or got[1] != [c for c, _ in cells]:
+            fail('failed-open-changed-array', '%s() changed' % n)
+    if sorted(obs['fn']) != sorted(sc['fns']):
+        fail('failed-open-lost-def-fn', 'still callable: %r of %r' % (obs['fn'], sc['fns']))
+    if obs['dt'] != ''.join(r['table']):
+        fail('failed-open-changed-deftype', 'default types %s, expected %s' % (obs['dt'], ''.join(r['table'])))
+    want_base = str(sc['base']) if sc['base'] is not None else ('0' if sc['arrays'] else '-')
+    if obs['base'] != want_base:
+        fail('failed-open-changed-option-base', 'OPTION BASE probe says %s, expected %s' % (obs['base'], want_base))
+    if (obs['gosub'], obs['for'], obs['while']) != (1 if sc['nest'] else 0, 1, 1):
+        fail('failed-open-cleared-stacks', 'GOSUB/FOR/WHILE records present: %r'
+             % ((obs['gosub'], obs['for'], obs['while']),))
+    if obs['trap'] != (9000 if sc['onerror'] else 0):
+        fail('failed-open-changed-error-trap', 'ON ERROR line %r' % obs['trap'])
+    if obs['math'] != (1 if sc['onerror'] else 0):
+        fail('failed-open-changed-math-trap', 'PRINT 1/0 gave %r' % obs['math_out'])
+    if obs['rnd'] != (1 if sc['rnd'] == 0 else 0):
+        fail('failed-open-changed-rnd', 'RND sequence %s' % ('restarted' if obs['rnd'] else 'moved'))
+    want_read = b' %d \r\n' % [11, 22, 33, 44, 55][sc['reads']]
+    if obs['read'] != want_read:
+        fail('failed-open-changed-data-pointer', 'READ gave %r, expected %r' % (obs['read'], want_read))
+    if sc['file'] and not obs['files']:
+        fail('failed-open-closed-files', 'file #1 is closed')
+    need = r['vs_old'] + sum(scal_size(n) for n, _, _, _ in r['pre_sc']) + sum(scal_size(n) for n in r['fn_recs']) \
+        + sum(arr_size(n, dims, lo) for n, _, dims, _ in r['pre_ar']) \
+        + sum(len(v) for n, sig, v, mode in r['pre_sc'] if sig == '$' and mode != 'lit') \
+        + sum(len(c) for n, sig, dims, cells in r['pre_ar'] if sig == '$' for c, mode in cells if mode != 'lit')
+    if obs['fre'] != r['top_after'] - need:
+        fail('failed-open-fre-accounting', 'FRE("") = %r, expected %r' % (obs['fre'], r['top_after'] - need))
 
 
 # ---------------------------------------------------------------------------------------------------
